@@ -559,7 +559,7 @@ func showInJS(env *env, out io.Writer, value any) error {
 			_, err = w.WriteString("]")
 		}
 		return err
-	case reflect.Pointer, reflect.UnsafePointer:
+	case reflect.Pointer:
 		if v.IsNil() {
 			s = "null"
 			break
@@ -665,6 +665,10 @@ func showInJS(env *env, out io.Writer, value any) error {
 		}
 		return err
 	default:
+		if v.Kind() == reflect.UnsafePointer && v.IsNil() {
+			s = "null"
+			break
+		}
 		t := env.TypeOf(reflect.ValueOf(value))
 		s = fmt.Sprintf("undefined/* scriggo: cannot represent a %s value */", t)
 	}
@@ -766,7 +770,7 @@ func showInJSON(env *env, out io.Writer, value any) error {
 			_, err = w.WriteString("]")
 		}
 		return err
-	case reflect.Pointer, reflect.UnsafePointer:
+	case reflect.Pointer:
 		if v.IsNil() {
 			s = "null"
 			break
